@@ -384,6 +384,23 @@ def o193(ctx):
         okd = len(rec) == 1 and len(nxt) == 1 and block_of(m, rec[0]) is block_of(m, nxt[0])
     if not okd:
         ctx.finding(q, c, "the distance recorded for the former particle must be the one returned together with the chosen next particle", c, m)
+    # the distance field of a chain row is written by the forward step (with the distance of the chosen link) and by the connection helpers
+    # only: any other store into it (a reset, a default) can wipe the distance of a link that exists
+    dist_param = next((a_.arg for a_ in fn.args.args + fn.args.kwonlyargs if a_.arg == "store_dist"), None)
+    if dist_param is not None and okd:
+        others = [n for n in ast.walk(fn) if isinstance(n, (ast.Assign, ast.AugAssign))
+                  and any(dist_param in {x.id for x in ast.walk(t_) if isinstance(x, ast.Name)} for t_ in (n.targets if isinstance(n, ast.Assign) else [n.target]))
+                  and n not in rec]
+        conn = [x.lineno for x in ast.walk(fn) if isinstance(x, ast.Call) and src(x.func).split(".")[-1] in ("add_chain_suffix", "add_chain_prefix")]
+        if not conn:
+            raise Unsupported("connection step (add_chain_suffix / add_chain_prefix) of trace_chains not found", fn)
+        # a reset when a chain is started (before any link exists) changes nothing a link has recorded; after the connection step it does
+        others = [n for n in others if n.lineno > min(conn)]
+        ctx.count(1, {"stores into the distance field in trace_chains": 1 + len(others)})
+        for n in others:
+            ctx.finding(q, n, f"trace_chains writes the distance field of a chain row a second time (`{src(n)[:70]}`): the field holds the distance of "
+                        "the link to the next particle of the chain; after the chain has been put in front of / behind another one by the connection "
+                        "step its last row does have a successor, and the recorded distance of that link is lost", n, m)
     # (f) connection of a finished chain to existing ones: the chain's *first* particle (entry site) is looked up among the exit sites,
     #     the chain's *last* particle (exit site) among the entry sites
     back = [c_ for c_ in calls if isinstance(A(c_)[-1], ast.Constant) and A(c_)[-1].value is False]
@@ -628,4 +645,4 @@ def _obligations():
 
 
 def obligations():
-    return _obligations() + [labels_obligation("C19"), selectors_obligation("C19"), effects_obligation("C19"), plumbing_obligation("C19")]
+    return _obligations() + [labels_obligation("C19"), selectors_obligation("C19"), effects_obligation("C19"), plumbing_obligation("C19"), overrides_obligation("C19"), options_obligation("C19")]
